@@ -1045,3 +1045,71 @@ Proof.
   split; [vm_compute; reflexivity|]. split; [vm_compute; reflexivity|].
   split; [vm_compute; reflexivity|]. split; [vm_compute; reflexivity|]. split; vm_compute; reflexivity.
 Qed.
+
+(* ------------------------------------------------------------------------------------------ *)
+(* Round 10: THE VARIANT HEADER BLOCK.  VCF -> BCF for a whole file where nothing about the header is
+   a parameter: the lookup tables are C09's hctx_of_header of the parsed header, the string maps are
+   C10's maps_of_header (StringMaps::try_from(&header), the maps the BCF writer keeps), the 4.5
+   switch of variant_span comes from the header's file format, the BCF header block is C10's
+   write_prefix; the produced stream is read by C10's BCF FILE reader (read_header + the record loop
+   with one reused RecordBuf). *)
+From NV Require Vcf.Header Vcf.HeaderProofs Vcf.HdrFrameProofs Vcf.File Bcf.File Bcf.FileProofs.
+From NV Require Import Util.ConvertVariantHdr Util.ConvertVariantHdrProofs.
+Open Scope N_scope.
+
+(* from the parsed header value: the BCF writer accepts the header, every record is in the
+   conversion's domain under the tables and maps OF THAT HEADER; then the conversion succeeds and the
+   BCF file reader reads the output as the same header and, to its clean end, the records with the
+   content of the source records *)
+Theorem c20_convert_vcf_to_bcf_file_with_header :
+  forall (fmt_float : N -> list N) (prs_float : list N -> option N) (FOK : N -> Prop),
+    (forall b, FOK b -> prs_float (fmt_float b) = Some b) ->
+    (forall b x, FOK b -> In x (fmt_float b) -> x <> 44 /\ x <> 9 /\ x <> 10 /\ x <> 59 /\ x <> 58) ->
+    (forall b, FOK b -> fmt_float b <> Values.dot) ->
+    (forall b, FOK b -> fmt_float b <> []) ->
+    forall hd p rs ts,
+      HeaderProofs.header_ok hd -> File.hdr_defs_ok hd = true -> HdrFrameProofs.hdr_vals_framed hd ->
+      Bcf.File.write_prefix hd = Some p ->
+      (forall s c, Bcf.File.maps_of_header hd = Some (s, c) ->
+         Forall2 (conv_rec_ok fmt_float FOK (ff_ge45 (Header.hh_ff hd)) s c (File.hctx_of_header hd)) rs ts) ->
+      exists out backs,
+        convert_vcf_bcf_hdr prs_float hd ts = HvOk out /\
+        Bcf.File.bcf_read_file out = Bcf.File.FOk (hd, (backs, Bcf.File.EndEof)) /\
+        map (content (h_v44 (File.hctx_of_header hd))) backs = map (content (h_v44 (File.hctx_of_header hd))) rs.
+Proof. exact convert_vcf_bcf_hdr_preserves. Qed.
+Print Assumptions c20_convert_vcf_to_bcf_file_with_header.
+
+(* ... and from the BYTES of the header text the VCF writer emits for hd (the VCF reader's header
+   parse, C09's read_header_text, is inside the model) *)
+Theorem c20_convert_vcf_to_bcf_file_from_header_bytes :
+  forall (fmt_float : N -> list N) (prs_float : list N -> option N) (FOK : N -> Prop),
+    (forall b, FOK b -> prs_float (fmt_float b) = Some b) ->
+    (forall b x, FOK b -> In x (fmt_float b) -> x <> 44 /\ x <> 9 /\ x <> 10 /\ x <> 59 /\ x <> 58) ->
+    (forall b, FOK b -> fmt_float b <> Values.dot) ->
+    (forall b, FOK b -> fmt_float b <> []) ->
+    forall hd ls p rs ts,
+      HeaderProofs.header_ok hd -> File.hdr_defs_ok hd = true -> HdrFrameProofs.hdr_vals_framed hd ->
+      Header.write_header hd = Some ls -> Bcf.File.write_prefix hd = Some p ->
+      (forall s c, Bcf.File.maps_of_header hd = Some (s, c) ->
+         Forall2 (conv_rec_ok fmt_float FOK (ff_ge45 (Header.hh_ff hd)) s c (File.hctx_of_header hd)) rs ts) ->
+      exists out backs,
+        convert_vcf_bcf_hfile prs_float (File.with_lf ls) ts = HvOk out /\
+        Bcf.File.bcf_read_file out = Bcf.File.FOk (hd, (backs, Bcf.File.EndEof)) /\
+        map (content (h_v44 (File.hctx_of_header hd))) backs = map (content (h_v44 (File.hctx_of_header hd))) rs.
+Proof. exact convert_vcf_bcf_hfile_preserves. Qed.
+Print Assumptions c20_convert_vcf_to_bcf_file_from_header_bytes.
+
+(* non-vacuity, everything computed from BYTES: a 4.3 header text with INFO DP and contig c0 and the line
+   `c0 5 . A G . . DP=7`: the conversion emits a BCF file whose header C10's file reader reads as the
+   header the VCF reader parsed, and one record with DP = 7 *)
+Example c20_example_convert_variant_file_with_header :
+  let htext := [35;35;102;105;108;101;102;111;114;109;97;116;61;86;67;70;118;52;46;51;10;35;35;73;78;70;79;61;60;73;68;61;68;80;44;78;117;109;98;101;114;61;49;44;84;121;112;101;61;73;110;116;101;103;101;114;44;68;101;115;99;114;105;112;116;105;111;110;61;34;100;34;62;10;35;35;99;111;110;116;105;103;61;60;73;68;61;99;48;62;10;35;67;72;82;79;77;9;80;79;83;9;73;68;9;82;69;70;9;65;76;84;9;81;85;65;76;9;70;73;76;84;69;82;9;73;78;70;79;10] in
+  let line := [99;48;9;53;9;46;9;65;9;71;9;46;9;46;9;68;80;61;55] in
+  exists out hd b,
+    convert_vcf_bcf_hfile (fun _ => None) htext [line] = HvOk out /\
+    fst (File.read_header_text htext) = Some hd /\
+    Bcf.File.bcf_read_file out = Bcf.File.FOk (hd, ([b], Bcf.File.EndEof)) /\ r_info b = [([68; 80], Some (VInteger 7%Z))].
+Proof.
+  eexists. eexists. eexists.
+  split; [vm_compute; reflexivity|]. split; [vm_compute; reflexivity|]. split; vm_compute; reflexivity.
+Qed.
